@@ -173,25 +173,28 @@ Theorem C04_shared_handles_released : forall b0 l0 n opsf cf,
   Mach.live (ms cf) = false.
 Proof. exact shared_handles_released. Qed.
 
-(* ---- sharing BY REFERENCE (std::thread::scope), in the program semantics: thread 0 lends &handle to n scoped threads,
-   for every n; each scoped thread runs any sequence of reads through the borrowed handle and clones through it (every
-   clone is then its own handle, on which it runs any sequence of reads and mutations before dropping it); the scope ends
-   when all of them have run to completion; then thread 0 runs any sequence on its handle and drops it.  The typing carries
-   who borrows (g_bor) and whom a thread has lent to (lt, in agreement with the machine's lend fields: wt_loans); while a
-   loan is outstanding the lender only lends again, joins, and runs read-only operations (ro: on the shared buffer only
-   reads and clones; here it reads its lent handle nreads times while the scope is open).  The initial configuration is well typed, so every reachable
-   configuration is (C04_typed_step), none can make an erroneous step, every thread's next event is enabled
-   (C04_typed_progress: a borrower's read and clone through the borrowed handle included), and when everybody has finished
-   the buffer has been released. ---- *)
-Theorem C04_scoped_handles_typed : forall b0 l0 n bopsf ops0 nreads,
-  WT b0 (fun _ => 0%nat) (fun t => negb (Nat.eqb t 0)) (scfg0 b0 l0 n bopsf ops0 nreads).
+(* ---- sharing BY REFERENCE (std::thread::scope), in the program semantics: thread 0 holds two handles on the buffer and
+   lends one of them to n+1 scoped threads, for every n; each scoped thread runs any sequence of reads through the
+   borrowed handle and clones through it (every clone is then its own handle, on which it runs any sequence of reads and
+   mutations before dropping it); meanwhile the OWNER runs any sequence of reads and mutations on its other handle and
+   drops it, and then reads and clones through the handle it has lent like any borrower (any sequence of operations on
+   each clone); the scope ends when all scoped threads have run to completion; then thread 0 runs any sequence on the
+   handle it had lent and drops it.  The typing carries who borrows (g_bor) and whom a thread has lent to (lt, in
+   agreement with the machine's lend fields: wt_loans); while a loan is outstanding the lent handle is set aside: the
+   lender's commands are typed with one reference fewer (g_hide) — so they can do anything with its other handles, and the
+   machine state counts one reference beyond the ghost (agreeh) — and it does not spawn.  The initial configuration is
+   well typed, so every reachable configuration is (C04_typed_step), none can make an erroneous step, every thread's next
+   event is enabled (C04_typed_progress: a borrower's read and clone through the borrowed handle, a lender's release and
+   uniqueness probe on its other handle included), and when everybody has finished the buffer has been released. ---- *)
+Theorem C04_scoped_handles_typed : forall b0 l0 n bopsf ops1 lops ops0,
+  WT b0 (fun _ => 0%nat) (fun t => negb (Nat.eqb t 0)) (scfg0 b0 l0 n bopsf ops1 lops ops0).
 Proof. exact scoped_handles_typed. Qed.
-Theorem C04_scoped_handles_safe : forall b0 l0 n bopsf ops0 nreads cf,
-  csteps b0 (scfg0 b0 l0 n bopsf ops0 nreads) cf ->
+Theorem C04_scoped_handles_safe : forall b0 l0 n bopsf ops1 lops ops0 cf,
+  csteps b0 (scfg0 b0 l0 n bopsf ops1 lops ops0) cf ->
   WT b0 (fun _ => 0%nat) (fun t => negb (Nat.eqb t 0)) cf /\ forall t a e, Mach.step (ms cf) t a <> Mach.Err e.
 Proof. exact scoped_handles_safe. Qed.
-Theorem C04_scoped_handles_released : forall b0 l0 n bopsf ops0 nreads cf,
-  csteps b0 (scfg0 b0 l0 n bopsf ops0 nreads) cf ->
+Theorem C04_scoped_handles_released : forall b0 l0 n bopsf ops1 lops ops0 cf,
+  csteps b0 (scfg0 b0 l0 n bopsf ops1 lops ops0) cf ->
   (forall t, (t < length (tc cf))%nat -> Mach.started (Mach.getth (ms cf) t) = true -> finished (gettc b0 cf t)) ->
   Mach.live (ms cf) = false.
 Proof. exact scoped_handles_released. Qed.
@@ -209,16 +212,18 @@ Example C04_execution_example :
   /\ Mach.live (ms final) = false
   /\ forallb (fun x => match cur x, rest x with Ret _, [] => true | _, _ => false end) (tc final) = true.
 Proof. cbv zeta. split; [apply run_sched_sound|]. vm_compute. auto. Qed.
-(* and of the scoped family: the owner lends to two scoped threads; each reads through the borrowed handle, clones
-   through it, edits its clone (copy-on-write) and drops it; the scope ends; the owner pushes and drops: everybody
-   finishes and the buffer has been released *)
+(* and of the scoped family: the owner clones, lends one handle to two scoped threads; each reads through the borrowed
+   handle, clones through it, edits its clone (copy-on-write) and drops it; meanwhile the owner pushes onto its other
+   handle (a copy: the count is at least 2), removes from it and drops it, then reads and clones through the lent handle;
+   the scope ends; the owner pushes and drops: everybody finishes and the buffer has been released *)
 Definition ex_bops (i : nat) : list bop :=
   match i with 1%nat => [BRead; BClone [HPush [98%N]; HRead]] | _ => [BClone [HRemove 0%N]; BRead] end.
 Definition ex_sched3 : list choice :=
-  map (fun i => {| who := Nat.modulo i 3; probe := 0; fresh_id := Some (S i) |}) (seq 0 600).
+  map (fun i => {| who := Nat.modulo i 3; probe := 0; fresh_id := Some (S i) |}) (seq 0 900).
 Example C04_scoped_execution_example :
-  let final := run_sched 0%nat (scfg0 0%nat 5%N 2 ex_bops [HPush [97%N]] 2) ex_sched3 in
-  csteps 0%nat (scfg0 0%nat 5%N 2 ex_bops [HPush [97%N]] 2) final
+  let c0 := scfg0 0%nat 5%N 1 ex_bops [HPush [99%N]; HRemove 0%N] [BRead; BClone [HPop]] [HPush [97%N]] in
+  let final := run_sched 0%nat c0 ex_sched3 in
+  csteps 0%nat c0 final
   /\ Mach.live (ms final) = false
   /\ forallb (fun x => match cur x, rest x with Ret _, [] => true | _, _ => false end) (tc final) = true.
 Proof. cbv zeta. split; [apply run_sched_sound|]. vm_compute. auto. Qed.
